@@ -8,7 +8,7 @@ ID = "C10"
 ENGINE = "A"
 ALGOS = ("dpop", "syncbb", "mgm", "mgm2", "dsa", "adsa", "dsatuto", "dba", "gdba", "maxsum",
          "amaxsum")
-RULE = ("random DCOP (n<=6, dom<=3, str and shifted int domains, variable costs, initial values) "
+RULE = ("random DCOP (n<=6, dom<=3, str, shifted int and mixed str/int domains, variable costs, initial values) "
         "x each of the 11 shipped algorithms with swarm parameters (noise/damping at defaults and "
         "0) x tape-drawn schedule, bounded by an event cap; the invariant is evaluated at every "
         "value_selection; non-trivial = >=1 value selection checked, >=2 parties exchanged "
@@ -23,7 +23,7 @@ def generate(rng, tier):
         shapes=("random", "random", "tree", "chain", "star", "clique", "components"),
         arity3_p=0.0 if binary_only else 0.2, unary_p=0.0 if binary_only else 0.2,
         varcost_p=rng.choice([0.0, 0.5]), cost_classes=("small", "signed", "float"),
-        initial_p=0.3, str_domain_p=0.3, max_space=1000,
+        initial_p=0.3, str_domain_p=0.3, max_space=1000, mixed_domain_p=0.15,
         objective="min" if algo in ("dba",) else None)
     p = {}
     if algo in ("mgm", "mgm2", "dsa"):
